@@ -3,7 +3,7 @@ import hashlib, json, os
 from core import Case, REPO
 
 PROP = 'C11'
-COQ_FILES = ['Extract/C11.v', 'Glue/Bech32Glue.v', 'Properties/C11.v']
+COQ_FILES = ['Proofs/Base58Fixed.v', 'Extract/C11.v', 'Glue/Bech32Glue.v', 'Properties/C11.v']
 TIE_FILES = ['Properties/TieEncoding.v']
 DRIVER = 'c11'
 IMPL = 'harness/impl/c11_impl.py'
@@ -26,14 +26,23 @@ ASSUMPTIONS = [
     '(accepted => checksum equals H(H(body))[:4]) for an arbitrary H; the exhaustive single-edit sweeps are testing',
     'the float comparison in change_base (expected_length == len(output)) is not modelled; the run checks on the '
     'interpreter that it is never true for input lengths 1..300000',
-    'Key(wif), HDKey(xkey), HDKey.from_wif, BIP38 strings and Address.parse are checked at property level only '
-    '(independent oracle), they are not modelled in Coq; SHA-256 transcription validated under crypto checks',
+    'Key(wif) and Address.parse are checked at property level only (independent oracle), they are not modelled in Coq; of '
+    'HDKey(xkey), HDKey.from_wif and bip38_decrypt / Key(enc, password=) / HDKey(enc, password=) the Base58Check guard '
+    '(decode, exact length 82 / 43, checksum over everything before the last four bytes) is modelled (Proofs/Base58Fixed.v, '
+    'theorems fixed_length_accept_canonical / fixed_length_other_length_refused) and tied one-way: whatever the importer '
+    'accepts the modelled guard accepts; version-byte lookup, key validity and decryption are property level only; '
+    'addr_bech32_to_pubkeyhash with prefix= / include_witver=False / as_hex and addr_to_pubkeyhash with as_hex / encoding= '
+    'are property level only (the model has the include_witver=True form); SHA-256 transcription validated under crypto checks',
 ]
 RULE = ('valid strings of every kind built by an independent encoder (P2PKH/P2SH for every network of networks.json, '
         'bech32 v0 20/32, bech32m v1..16 lengths 2..40, WIF, extended keys for every table prefix, BIP38); for a '
         'sample every single-character substitution at every position (all alphabet alternatives + 0 O I l), '
         'deletion, insertion, adjacent transposition, case changes, leading-character removal/addition, wrong '
-        'checksum constant; a case is non-trivial when the implementation accepts the string; distinct by request')
+        'checksum constant; payload-level constructions through every Base58Check entry point (addresses, Key(wif), HDKey(xkey), '
+        'HDKey.from_wif, Key/HDKey(bip38, password), bip38_decrypt): valid payload with bytes appended / prepended / inserted '
+        '(checksum recomputed, checksum of the valid part kept, both), one byte short, each checksum byte altered; the Bech32 grid '
+        'witness version 0..31 x both constants x program lengths 1..41 through addr_bech32_to_pubkeyhash with every optional '
+        'argument, addr_to_pubkeyhash, deserialize_address, Address.parse; a case is non-trivial when the implementation accepts the string; distinct by request')
 
 # ---------------------------------------------------------------- independent oracle (protocol texts)
 B58 = '123456789ABCDEFGHJKLMNPQRSTUVWXYZabcdefghijkmnopqrstuvwxyz'
@@ -228,6 +237,32 @@ def rbytes(rng, n):
     return bytes(rng.randrange(256) for _ in range(n))
 
 
+def payload_forms(P, rng, full):
+    """Base58 strings built at PAYLOAD level from the valid payload P (version + data, no checksum), which character
+    damage never produces: extra bytes appended / prepended / inserted (checksum recomputed over the whole, checksum of
+    the valid part left in place, or both), one byte short, right length with each checksum byte altered."""
+    cs = dsha(P)[:4]
+    out = []
+    junk = [b'\0', b'\1', rbytes(rng, 1), rbytes(rng, 2), rbytes(rng, 4), b'\0' * 4]
+    if not full:
+        junk = [junk[0], junk[rng.randrange(1, 3)], junk[rng.randrange(3, 6)]]
+    for J in junk:
+        i = rng.randrange(1, len(P)) if len(P) > 1 else 0
+        out += [('app_keepsum', o_b58enc(P + cs + J)), ('app_resum', o_b58check(P + J)),
+                ('app_bothsums', o_b58check(P + cs + J)), ('app_sumtwice', o_b58enc(P + J + cs + dsha(P + J)[:4])),
+                ('pre_resum', o_b58check(J + P)), ('pre_keepsum', o_b58enc(J + P + cs)),
+                ('ins_resum', o_b58check(P[:i] + J + P[i:])), ('ins_keepsum', o_b58enc(P[:i] + J + P[i:] + cs))]
+    out += [('short_resum', o_b58check(P[:-1])), ('short_resum', o_b58check(P[1:])), ('short_keepsum', o_b58enc(P[:-1] + cs)),
+            ('short_sum', o_b58enc(P + cs[:3])), ('short_sum', o_b58enc(P + cs[1:])), ('no_sum', o_b58enc(P))]
+    for j in range(4):
+        for x in ((1, 0x80, 0xff) if full else (rng.choice([1, 0x80, 0xff, rng.randrange(1, 256)]),)):
+            out.append(('sum_byte%d' % j, o_b58enc(P + cs[:j] + bytes([cs[j] ^ x]) + cs[j + 1:])))
+    out += [('sum_other', o_b58enc(P + bytes(4))), ('sum_other', o_b58enc(P + cs[::-1])),
+            ('sum_other', o_b58enc(P + hashlib.sha256(P).digest()[:4])), ('sum_other', o_b58enc(P + dsha(P)[-4:])),
+            ('sum_other', o_b58enc(P + dsha(P[1:])[:4]))]
+    return out
+
+
 def gen_cases(rng, tier):
     big = tier == 'thorough'
     cs = []
@@ -309,6 +344,18 @@ def gen_cases(rng, tier):
             s[rng.randrange(len(s))] = rng.choice(B58 + LOOKALIKES)
         addr_views(''.join(s), 'multi', ('deser', 'addr58'))
 
+    # payload-level constructions (what no character edit produces) through every address entry point
+    pl = [bytes.fromhex(networks()['bitcoin']['prefix_address']) + rbytes(rng, 20),
+          bytes.fromhex(networks()['bitcoin']['prefix_address_p2sh']) + rbytes(rng, 20)]
+    pl += [o_b58check_dec(x) for x in rng.sample(valid58, 6 if big else 2)]
+    for n, P in enumerate(pl):
+        for t, m in payload_forms(P, rng, big or n == 0):
+            addr_views(m, 'payload_' + t)
+            add('a2px:payload_' + t, 'a2px %s %s %s' % (hs(m), rng.choice('-01'), rng.choice(['none', 'b58', 'none'])), ('a2px', m))
+            if big or n < 2:
+                add('deser:payload_' + t, 'deser b58 ' + hs(m), ('deser', m, 'b58'))
+                add('reenc:payload_' + t, 'reenc ' + hs(m), ('reenc', m))
+
     # --- Bech32 / Bech32m
     valid32 = []
     hrp_list = list(hrps) + ['xyz', 'a', 'b1c', 'bc1']
@@ -364,6 +411,32 @@ def gen_cases(rng, tier):
         if len(w) <= 95:
             add('bech32dec:shape', 'bech32dec ' + hs(w), ('bech32dec', w))
             add('deser:shape', 'deser none ' + hs(w), ('deser', w, None))
+    # the whole grid witness version 0..31 x both checksum constants x program length 1..41, through every entry point and
+    # every optional argument (include_witver, prefix=, as_hex; addr_to_pubkeyhash with and without encoding=)
+    lens = list(range(1, 42)) if big else [1, 2, 20, 32, 40, 41]
+    for wv in range(32):
+        for const in (1, BECH32M):
+            for n in lens + ([] if big else [rng.randrange(3, 40), rng.randrange(3, 40)]):
+                hrp = rng.choice(['bc', 'bc', 'tb', 'ltc'])
+                data = [wv] + o_regroup(list(rbytes(rng, n)), 8, 5, True)
+                pm = o_polymod(o_hrp_expand(hrp) + data + [0] * 6) ^ const
+                w = hrp + '1' + ''.join(CHARSET[d] for d in data + [(pm >> 5 * (5 - i)) & 31 for i in range(6)])
+                if len(w) > 92:
+                    continue
+                if rng.random() < 0.15:
+                    w = w.upper()
+                h = hs(w)
+                combos = [(iw, ah) for iw in '-01' for ah in '-01']
+                for iw, ah in (combos if big else [('-', '-'), ('0', rng.choice('01')), ('1', rng.choice('-01')), rng.choice(combos)]):
+                    pfx = rng.choice(['-', '-', hrp, hrp, 'bc', 'tb'])
+                    add('b32:grid', 'b32 %s %s %s %s' % (h, hs(pfx) if pfx != '-' else '-', iw, ah), ('b32', w))
+                add('a2px:grid', 'a2px %s %s none' % (h, rng.choice('-01')), ('a2px', w))
+                add('a2px:grid', 'a2px %s %s bech32' % (h, rng.choice('-01')), ('a2px', w))
+                add('a2p:grid', 'a2p ' + h, ('a2p', w))
+                add('bech32dec:grid', 'bech32dec ' + h, ('bech32dec', w))
+                add('deser:grid', 'deser none ' + h, ('deser', w, None))
+                add('deser:grid', 'deser bech32 ' + h, ('deser', w, 'bech32'))
+                add('parse:grid', 'parse ' + h, ('parse', w))
     for w in ['', '1', 'bc1', '1qqqqqq', 'bc1qqqqqq', 'bc1' + 'q' * 88, 'bc1' + 'q' * 87, '\x7f1qqqqqqq', ' bc1qqqqqqq',
               'bc1qw508d6qejxtdg4y5r3zarvary0c5xw7kv8f3t4 ', 'bc1QW508d6qejxtdg4y5r3zarvary0c5xw7kv8f3t4']:
         add('bech32dec:shape', 'bech32dec ' + hs(w), ('bech32dec', w))
@@ -414,6 +487,10 @@ def gen_cases(rng, tier):
         v = rng.choice(list(wifs))
         add('key:other_length', 'key ' + hs(o_b58check(v + rbytes(rng, rng.choice([31, 33, 34, 35])))), ('key', None))
 
+    for n, s in enumerate(rng.sample(wif_valid, len(wif_valid) if big else 3) + [wif_valid[0], wif_valid[1]]):
+        for t, m in payload_forms(o_b58check_dec(s), rng, big or n == 0):
+            add('key:payload_' + t, 'key ' + hs(m), ('key', m))
+
     # --- extended keys through HDKey(...) and HDKey.from_wif(...)   (property level only)
     xk_valid = []
     for v, rows in xk.items():
@@ -439,6 +516,22 @@ def gen_cases(rng, tier):
             if a != s[-1]:
                 for v in ('hdkey', 'hdfromwif'):
                     add(v + ':sub_tail', v + ' ' + hs(s[:-1] + a), (v, s[:-1] + a))
+
+    btc = [x for x in xk_valid if o_b58check_dec(x)[:4] in (bytes.fromhex('0488ade4'), bytes.fromhex('0488b21e'))]
+    for n, s in enumerate(btc[:2] + rng.sample(xk_valid, len(xk_valid) if big else 2)):
+        for t, m in payload_forms(o_b58check_dec(s), rng, big or n < 2):
+            for v in ('hdkey', 'hdfromwif'):
+                add(v + ':payload_' + t, v + ' ' + hs(m), (v, m))
+
+    # --- BIP38 strings at payload level: Key(s, password=), HDKey(s, password=) and bip38_decrypt(s, password) itself
+    for n, (s, pw) in enumerate(BIP38[: (3 if big else 2)]):
+        if big or n == 1:
+            add('bip38fn:valid', 'bip38fn %s %s' % (hs(s), hs(pw)), ('bip38fn', s))
+        if n == 1:
+            add('bip38hd:valid', 'bip38hd %s %s' % (hs(s), hs(pw)), ('bip38hd', s))
+        for t, m in payload_forms(o_b58check_dec(s), rng, big or n == 1):
+            for v in ('bip38', 'bip38fn', 'bip38hd'):
+                add(v + ':payload_' + t, '%s %s %s' % (v, hs(m), hs(pw)), (v, m))
 
     # --- BIP38 strings (property level only; scrypt makes each call slow)
     for s, pw in BIP38[: (3 if big else 2)]:
@@ -470,8 +563,14 @@ def _p2tr_any():
 FLAGS = {'b58dec': '0', 'addr58': '0 1', 'a2p': '0 1', 'deser': '0 1 1 ' + ('1' if _p2tr_any() else '0')}
 
 
+# importers whose Base58Check guard is modelled (Proofs/Base58Fixed.v lib_fixed_check): decoded length the guard demands
+FIXED_LEN = {'hdkey': 82, 'hdfromwif': 82, 'bip38': 43, 'bip38fn': 43, 'bip38hd': 43}
+
+
 def model_req(c):
     t = c.req.split(' ')
+    if t[0] in FIXED_LEN:
+        return 'fixedchk %d %s' % (FIXED_LEN[t[0]], t[1])
     if t[0] not in MODELLED:
         return 'skip'
     if t[0] in FLAGS:
@@ -480,7 +579,14 @@ def model_req(c):
 
 
 def same(c, io, mo):
-    if c.req.split(' ')[0] not in MODELLED:
+    k = c.req.split(' ')[0]
+    if k in FIXED_LEN:
+        # the importer does more than the guard (version bytes, key validity, decryption): it may refuse what the guard
+        # lets through, but whatever it accepts the modelled guard accepts, and the key it holds is in the guarded payload
+        if io.startswith('ERR'):
+            return True
+        return mo.startswith('OK ') and (k.startswith('bip38') or io.split(' ')[2] in mo)
+    if k not in MODELLED:
         return True
     return io == mo
 
@@ -533,7 +639,8 @@ def _meta(c):
             return ('b58enc', b'' if t[1] == '-' else bytes.fromhex(t[1]))
         if k == 'b58dec':
             return ('b58dec', unhs(t[1]), int(t[2]))
-        if k in ('addr58', 'a2p', 'bech32dec', 'bech32chk', 'parse', 'reenc', 'hdkey', 'hdfromwif', 'bip38'):
+        if k in ('addr58', 'a2p', 'bech32dec', 'bech32chk', 'parse', 'reenc', 'hdkey', 'hdfromwif', 'bip38', 'bip38fn', 'bip38hd',
+                 'b32', 'a2px'):
             return (k, unhs(t[1]))
         if k == 'key':
             return ('key', None if c.kind == 'key:other_length' else unhs(t[1]))
@@ -607,6 +714,29 @@ def prop_check(c, out):
             exp = bytes([0x50 + r[1] if r[1] else 0, len(r[2])]) + r[2]
             return None if out == hs(exp) else 'addr_bech32_to_pubkeyhash(%r) = %s, expected %s' % (m[1], out, exp.hex())
         return None if r is None else 'valid segwit address %r rejected' % m[1]
+    if k in ('b32', 'a2px'):
+        t = c.req.split(' ')
+        s = m[1]
+        r = o_segwit_dec(s)
+        if k == 'b32':
+            pfx, iw, ah = (None if t[2] == '-' else unhs(t[2])), t[3] == '1', t[4] == '1'
+            what = 'addr_bech32_to_pubkeyhash(%r, prefix=%r, include_witver=%s, as_hex=%s)' % (s, pfx, t[3], t[4])
+            if pfx is not None and r is not None and pfx != r[0]:
+                r = None                       # a valid address of another human-readable part than the one asked for
+            exp = None if r is None else ((bytes([0x50 + r[1] if r[1] else 0, len(r[2])]) if iw else b'') + r[2])
+        else:
+            ah, enc = t[2] == '1', t[3]
+            what = 'addr_to_pubkeyhash(%r, as_hex=%s, encoding=%s)' % (s, t[2], enc)
+            a = valid_b58_addr(s) if enc in ('none', 'b58') else None
+            exp = a[1] if a is not None else (r[2] if (r is not None and enc in ('none', 'bech32')) else None)
+        if not acc:
+            std = exp is not None and (r is None or r[1] == 0 or (r[1] == 1 and len(r[2]) == 32))
+            return None if not std else 'valid address rejected: %s = %s' % (what, out)
+        if exp is None:
+            return '%s accepts a string that is not a valid, canonical address (witness version 0..16, program 2..40 bytes, ' \
+                   'v0: 20/32, Bech32 for v0 and Bech32m otherwise): %s' % (what, out[:90])
+        want = 'OK %s %s' % ('str' if ah else 'bytes', exp.hex())
+        return None if out == want else '%s = %s, expected %s' % (what, out[:100], want[:100])
     if k == 'bech32chk':
         s = m[1].lower()
         pos = s.rfind('1')
@@ -699,11 +829,12 @@ def prop_check(c, out):
             return None
         clear = ok and any(n in ('bitcoin', 'testnet') for n, _ in xk[p[:4]])
         return None if not clear else 'valid extended key %r rejected (%s)' % (s[:16] + '..', out)
-    if k == 'bip38':
+    if k in ('bip38', 'bip38fn', 'bip38hd'):
         p = o_b58check_dec(m[1])
         ok = p is not None and len(p) == 39 and p[:2] in (b'\x01\x42', b'\x01\x43')
         if acc and not ok:
-            return 'Key(bip38) accepts %r, Base58Check checksum is wrong' % m[1]
+            return '%s accepts %r, which is not the Base58Check form of a 39-byte BIP38 payload with a correct checksum' % (
+                {'bip38': 'Key(s, password=)', 'bip38fn': 'bip38_decrypt', 'bip38hd': 'HDKey(s, password=)'}[k], m[1])
         return None
     return None
 
